@@ -453,13 +453,13 @@ Qed.
 Definition set_index (r : request) (i : attr) : request :=
   {| rq_kind := rq_kind r; rq_issuer := rq_issuer r; rq_pbind := rq_pbind r; rq_url := rq_url r; rq_index := i |}.
 
-(* the code as it stands: when the request object HAS a <service>_url
+(* the code BEFORE the repair: when the request object HAS a <service>_url
    attribute (every AuthnRequest), the index plays no role at all *)
 Lemma index_ignored c md r bindings dt i :
   rq_url r <> Missing ->
-  response_args c md (set_index r i) bindings dt = response_args c md r bindings dt.
+  response_args_before_fix c md (set_index r i) bindings dt = response_args_before_fix c md r bindings dt.
 Proof.
-  intros Hu. unfold response_args, response_args_with, pick_binding_with, binding_list, read_url_index, request_entity, set_index.
+  intros Hu. unfold response_args_before_fix, response_args_with, pick_binding_with, binding_list, read_url_index, request_entity, set_index.
   cbn [rq_kind rq_issuer rq_pbind rq_url rq_index].
   destruct (rq_url r) as [|u]; [contradiction|]. reflexivity.
 Qed.
